@@ -1484,3 +1484,232 @@ Section Serialiser.
     apply parse_with_fuel_complete; [apply serialize_pretty_valid; exact Hs|exact Hd|lia].
   Qed.
 End Serialiser.
+
+(* ------------------------------------------------------------------------------------------------ *)
+(* safety: no panic site is reached, the recursion never goes deeper than max_depth, the fuel is never exhausted *)
+
+Definition good {A} (x : outcome A) : Prop :=
+  match x with
+  | Crash _ => False
+  | Err e => e <> E_FUEL
+  | Ok _ => True
+  end.
+
+Lemma good_push (d : N) (x : outcome (str * str)) : good x -> good (push_char d x).
+Proof. destruct x as [[o r]| |]; cbn; auto. Qed.
+
+Ltac break_good :=
+  repeat match goal with
+  | |- good (match ?x with _ => _ end) => destruct x eqn:?
+  | |- good (if ?x then _ else _) => destruct x eqn:?
+  end.
+
+Lemma string_loop_good_n (n : nat) : forall s bs, (length s <= n)%nat -> good (string_loop false bs s).
+Proof.
+  induction n as [|n IH]; intros s bs Hlen.
+  - destruct s; [|cbn in Hlen; lia]. destruct bs; cbn; discriminate.
+  - destruct s as [|c r]; [destruct bs; cbn; discriminate|]. cbn [length] in Hlen.
+    cbn [string_loop]. break_good; cbn [length] in *;
+      try (cbn; discriminate); try exact I; try (apply good_push); try (apply IH; cbn [length] in *; lia).
+Qed.
+
+Lemma string_loop_good (s : str) (bs : bool) : good (string_loop false bs s).
+Proof. apply (string_loop_good_n (length s)). lia. Qed.
+
+Lemma string_loop_shorter (s o rest : str) : string_loop false false s = Ok (o, rest) -> (length rest < length s)%nat.
+Proof. intro H. apply string_loop_sound in H. destruct H as (b & -> & _). len. lia. Qed.
+
+Section Safety.
+  Variable F : Type.
+  Variable fparse : str -> option F.
+  Variable maxd : N.
+
+  Notation pv := (parse_value F fparse false maxd).
+  Notation al := (array_loop F fparse false maxd).
+  Notation ol := (object_loop F fparse false maxd).
+
+  Lemma parse_literal_good (c : N) (r : str) : good (parse_literal F fparse false c r).
+  Proof. unfold parse_literal. destruct (span_literal r). break_good; cbn; try discriminate; exact I. Qed.
+
+  Lemma pv_shorter (fuel : nat) (d : N) (s : str) (v : value F) (rest : str) :
+    d <= maxd -> pv fuel d s = Ok (v, rest) -> (length rest < length s)%nat.
+  Proof.
+    intros Hd H. apply (proj1 (sound_all F fparse maxd fuel)) in H; [|exact Hd].
+    destruct H as (w & t & -> & _ & Hv & _). destruct (JValue_head F fparse t v Hv) as (c & r & -> & _). len. lia.
+  Qed.
+
+  Definition safe_v (f : nat) : Prop := forall d s, d <= maxd -> (2 * length s + 2 <= f)%nat -> good (pv f d s).
+  Definition safe_a (f : nat) : Prop := forall d first s, d <= maxd -> (2 * length s + 3 <= f)%nat -> good (al f d first s).
+  Definition safe_o (f : nat) : Prop :=
+    forall d tc empty s, d <= maxd -> (2 * length s + 3 <= f)%nat -> good (ol f d tc empty s).
+
+  Lemma safe_all (f : nat) : safe_v f /\ safe_a f /\ safe_o f.
+  Proof.
+    induction f as [|f (IHv & IHa & IHo)].
+    - repeat split; intro; intros; lia.
+    - split; [|split].
+      + intros d s Hd Hf. rewrite pv_eq.
+        assert ((maxd <? d) = false) as -> by nbool.
+        pose proof (flush_ws_length s) as Hl.
+        destruct (flush_ws s) as [|c r] eqn:Ef; [cbn; discriminate|]. cbn [length] in Hl.
+        destruct (c =? ch_dq).
+        { pose proof (string_loop_good r false) as G. destruct (string_loop false false r) as [[o rest]| |]; exact G. }
+        destruct (c =? ch_lbrack).
+        { destruct (d =? maxd) eqn:Edm; [cbn; discriminate|]. b2p.
+          assert (G : good (al f (d + 1) true r)) by (apply IHa; lia).
+          destruct (al f (d + 1) true r) as [[vs rest]| |]; try exact G.
+          unfold dec_depth. assert ((d + 1 =? 0) = false) as -> by nbool. exact I. }
+        destruct (c =? ch_lbrace).
+        { destruct (d =? maxd) eqn:Edm; [cbn; discriminate|]. b2p.
+          assert (G : good (ol f (d + 1) false true r)) by (apply IHo; lia).
+          destruct (ol f (d + 1) false true r) as [[ms rest]| |]; try exact G.
+          unfold dec_depth. assert ((d + 1 =? 0) = false) as -> by nbool. exact I. }
+        apply parse_literal_good.
+      + intros d first s Hd Hf. rewrite al_eq.
+        pose proof (flush_ws_length s) as Hl.
+        destruct (flush_ws s) as [|c r] eqn:Ef; [cbn; discriminate|]. cbn [length] in Hl.
+        destruct (c =? ch_rbrack); [destruct first; cbn; [exact I|discriminate]|].
+        assert (G : good (pv f d (c :: r))) by (apply IHv; [exact Hd|cbn [length]; lia]).
+        destruct (pv f d (c :: r)) as [[v s2]| |] eqn:Ev; try exact G.
+        apply pv_shorter in Ev; [|exact Hd]. cbn [length] in Ev.
+        pose proof (flush_ws_length s2) as Hl2.
+        destruct (flush_ws s2) as [|c' r'] eqn:Ef2; [cbn; discriminate|]. cbn [length] in Hl2.
+        destruct (c' =? ch_comma).
+        { assert (G2 : good (al f d false r')) by (apply IHa; [exact Hd|lia]).
+          destruct (al f d false r') as [[vs rest]| |]; exact G2. }
+        destruct (c' =? ch_rbrack); cbn; [exact I|discriminate].
+      + intros d tc empty s Hd Hf. rewrite ol_eq.
+        pose proof (flush_ws_length s) as Hl.
+        destruct (flush_ws s) as [|c r] eqn:Ef; [cbn; discriminate|]. cbn [length] in Hl.
+        destruct (c =? ch_rbrace); [destruct tc; cbn; [discriminate|exact I]|].
+        destruct (c =? ch_comma).
+        { destruct tc; [cbn; discriminate|]. destruct empty; [cbn; discriminate|]. apply IHo; [exact Hd|lia]. }
+        destruct (negb (member_sep_ok false empty tc)); [cbn; discriminate|].
+        destruct (negb (c =? ch_dq)); [cbn; discriminate|].
+        pose proof (string_loop_good r false) as G.
+        destruct (string_loop false false r) as [[k s2]| |] eqn:Es; try exact G.
+        apply string_loop_shorter in Es.
+        pose proof (flush_ws_length s2) as Hl2.
+        destruct (flush_ws s2) as [|c2 r2] eqn:Ef2; [cbn; discriminate|]. cbn [length] in Hl2.
+        destruct (negb (c2 =? ch_colon)); [cbn; discriminate|].
+        pose proof (flush_ws_length r2) as Hl3.
+        assert (G2 : good (pv f d (flush_ws r2))) by (apply IHv; [exact Hd|lia]).
+        destruct (pv f d (flush_ws r2)) as [[v s5]| |] eqn:Ev; try exact G2.
+        apply pv_shorter in Ev; [|exact Hd].
+        assert (G3 : good (ol f d false false s5)) by (apply IHo; [exact Hd|lia]).
+        destruct (ol f d false false s5) as [[ms rest]| |]; exact G3.
+  Qed.
+
+  (* Value::parse_max_depth never reaches a panic site (C_DEC_DEPTH, C_STACK: the recursion depth stays <= max_depth),
+     and the fuel of the model is never exhausted: it returns a value or one of the five ParseError kinds *)
+  Theorem parse_max_depth_safe (s : str) : good (parse_max_depth F fparse false maxd s).
+  Proof.
+    unfold parse_max_depth, parse_with_fuel.
+    assert (G : good (pv (fuel_for s) 0 s)) by (apply (proj1 (safe_all (fuel_for s))); [lia|unfold fuel_for; lia]).
+    destruct (pv (fuel_for s) 0 s) as [[v rest]| |]; try exact G.
+    destruct (flush_ws rest); cbn; [exact I|discriminate].
+  Qed.
+End Safety.
+
+(* ------------------------------------------------------------------------------------------------ *)
+(* Value::parse (the limit is the constant read from the source) *)
+
+Section Parse.
+  Variable F : Type.
+  Variable fparse : str -> option F.
+
+  Theorem parse_sound (s : str) (v : value F) :
+    parse fparse s = Ok v -> JText fparse s v /\ depth v <= MAX_DEPTH.
+  Proof. apply parse_with_fuel_sound. Qed.
+
+  Theorem parse_complete (s : str) (v : value F) :
+    JText fparse s v -> depth v <= MAX_DEPTH -> parse fparse s = Ok v.
+  Proof. intros H Hd. apply parse_with_fuel_complete; [exact H|exact Hd|lia]. Qed.
+
+  Theorem parse_accepts_iff (s : str) :
+    (exists v, parse fparse s = Ok v) <-> (exists v, JText fparse s v /\ depth v <= MAX_DEPTH).
+  Proof.
+    split; intros (v & H); exists v; [apply parse_sound; exact H|apply parse_complete; tauto].
+  Qed.
+
+  (* a text denotes at most one value *)
+  Theorem JText_functional (s : str) (v v' : value F) : JText fparse s v -> JText fparse s v' -> v = v'.
+  Proof.
+    intros H H'. set (m := N.max (depth v) (depth v')).
+    assert (E : parse_with_fuel F fparse false m (fuel_for s) s = Ok v)
+      by (apply parse_with_fuel_complete; [exact H|unfold m; lia|lia]).
+    assert (E' : parse_with_fuel F fparse false m (fuel_for s) s = Ok v')
+      by (apply parse_with_fuel_complete; [exact H'|unfold m; lia|lia]).
+    congruence.
+  Qed.
+
+  Theorem parse_safe (s : str) : good (parse fparse s).
+  Proof. apply parse_max_depth_safe. Qed.
+End Parse.
+
+(* the admitted sub-language is part of the full RFC 8259 syntax *)
+Section Mono.
+  Variable F : Type.
+  Variable fparse : str -> option F.
+
+  Lemma JValue_mono_all :
+    (forall t v, JValue F fparse false t v -> JValue F fparse true t v) /\
+    (forall b vs, JElems F fparse false b vs -> JElems F fparse true b vs) /\
+    (forall b ms, JMembers F fparse false b ms -> JMembers F fparse true b ms).
+  Proof.
+    apply JValue_mutind; intros; try (constructor; auto using JChars_mono; fail).
+  Qed.
+
+  Theorem JText_is_JSyntax (s : str) (v : value F) : JText fparse s v -> JSyntax fparse s.
+  Proof.
+    intros (w1 & t & w2 & -> & H1 & Hv & H2). exists v, w1, t, w2. split; [reflexivity|]. split; [exact H1|].
+    split; [apply JValue_mono_all; exact Hv|exact H2].
+  Qed.
+End Mono.
+
+(* ------------------------------------------------------------------------------------------------ *)
+(* the tree before fixes F22, F23, F25 accepted texts that are not JSON; oracle: from_str accepts every literal offered here
+   (reproduced on the real code: NaN, +1, 01, .5 parse as f64) *)
+
+Definition fp_any : str -> option str := fun l => Some l.
+
+Ltac refute_with s v :=
+  exists s, v; split; [vm_compute; reflexivity|];
+  let H := fresh "H" in
+  intro H; apply parse_complete in H; [vm_compute in H; discriminate H|apply N.leb_le; vm_compute; reflexivity].
+
+(* F23: {"a":1 "b":2} *)
+Lemma legacy_refuted_missing_comma :
+  exists s v, parse_legacy fp_any s = Ok v /\ ~ JText fp_any s v.
+Proof.
+  refute_with [0x7b; 0x22; 0x61; 0x22; 0x3a; 0x31; 0x20; 0x22; 0x62; 0x22; 0x3a; 0x32; 0x7d]
+              (VObj [([0x61], VNum [0x31]); ([0x62], VNum [0x32])]).
+Qed.
+
+(* F22: +1, NaN, 01, .5 *)
+Lemma legacy_refuted_number_grammar :
+  (exists s v, parse_legacy fp_any s = Ok v /\ ~ JText fp_any s v) /\
+  parse_legacy fp_any [0x2b; 0x31] = Ok (VNum [0x2b; 0x31]) /\ ~ JNumber [0x2b; 0x31] /\
+  parse_legacy fp_any [0x4e; 0x61; 0x4e] = Ok (VNum [0x4e; 0x61; 0x4e]) /\ ~ JNumber [0x4e; 0x61; 0x4e] /\
+  parse_legacy fp_any [0x30; 0x31] = Ok (VNum [0x30; 0x31]) /\ ~ JNumber [0x30; 0x31] /\
+  parse_legacy fp_any [0x2e; 0x35] = Ok (VNum [0x2e; 0x35]) /\ ~ JNumber [0x2e; 0x35] /\
+  parse_legacy fp_any [0x31; 0x2e] = Ok (VNum [0x31; 0x2e]) /\ ~ JNumber [0x31; 0x2e].
+Proof.
+  split; [refute_with [0x2b; 0x31] (VNum (F := str) [0x2b; 0x31])|].
+  repeat split; try (vm_compute; reflexivity);
+    intro H; apply is_json_number_spec in H; vm_compute in H; discriminate H.
+Qed.
+
+(* F25: "\u+123" *)
+Lemma legacy_refuted_hex_sign :
+  exists s v, parse_legacy fp_any s = Ok v /\ ~ JText fp_any s v.
+Proof.
+  refute_with [0x22; 0x5c; 0x75; 0x2b; 0x31; 0x32; 0x33; 0x22] (VStr (F := str) [0x123]).
+Qed.
+
+(* the same three texts are rejected now *)
+Lemma fixed_rejects :
+  parse fp_any [0x7b; 0x22; 0x61; 0x22; 0x3a; 0x31; 0x20; 0x22; 0x62; 0x22; 0x3a; 0x32; 0x7d] = Err E_TOK /\
+  parse fp_any [0x2b; 0x31] = Err E_TOK /\
+  parse fp_any [0x22; 0x5c; 0x75; 0x2b; 0x31; 0x32; 0x33; 0x22] = Err E_ESC.
+Proof. repeat split; vm_compute; reflexivity. Qed.
